@@ -27,6 +27,7 @@ const L_C01_DISPATCH: &str = "C01.bounded.tracked_exactly_when_a_request_was_sen
 static FOR_C01: std::sync::atomic::AtomicBool = std::sync::atomic::AtomicBool::new(false);
 fn for_c01() -> bool { FOR_C01.load(std::sync::atomic::Ordering::Relaxed) }
 pub fn run_dispatch_for_c01(seed: u64, thorough: bool) -> u64 { FOR_C01.store(true, std::sync::atomic::Ordering::Relaxed); run(seed, thorough) }
+const L_HOOK: &str = "C03.bounded.on_disabled_hook_runs_on_the_transition_only";
 const L_REENABLE: &str = "C03.bounded.reenable_generates_on_that_event";
 
 fn count(v: &[Req], r: &Req) -> usize { v.iter().filter(|q| *q == r).count() }
@@ -76,6 +77,7 @@ pub fn run_scenario<R: RiskManager<State = State>>(rig: &mut Rig<R>, links: [Lin
     let debug = std::env::var("VX_DEBUG_MODEL").is_ok();
     for (k, (ev, script)) in steps.iter().enumerate() {
         let calls0 = rig.algo_calls();
+        let (hook0, was_trading) = (lock(&rig.shared).disabled_calls, model.trading);
         rig.queue(script.as_ref());
         let real = ev.real(lay);
         let audit = match catch_unwind(AssertUnwindSafe(|| rig.engine.process(real))) {
@@ -83,6 +85,12 @@ pub fn run_scenario<R: RiskManager<State = State>>(rig: &mut Rig<R>, links: [Lin
             Err(_) => { run.fail(L_DELIVERED, k, "panic while processing the event".into(), "no panic".into()); return; }
         };
         let consulted = rig.algo_calls() > calls0;
+        // the strategy's on-disabled logic (it may cancel / close, i.e. issue requests) runs on the Enabled -> Disabled transition only
+        let hook_runs = lock(&rig.shared).disabled_calls - hook0;
+        let want_hook = if matches!(ev, Ev::Trading(false)) && was_trading { 1 } else { 0 };
+        if hook_runs != want_hook {
+            run.fail(L_HOOK, k, format!("on_trading_disabled ran {hook_runs}x on this event (trading before the event: {})", if was_trading { "Enabled" } else { "Disabled" }), format!("{want_hook}x"));
+        }
         lock(&rig.shared).next = None;
         let delivered = delivered_reqs(&rig.drain());
         let rep = parse_audit(&audit);
